@@ -133,7 +133,10 @@ func (r *propRun) nativeReplay(j Job, cases []nativeCase, extraEnv []string, ext
 	args = append(args, "./"+j.Pkg)
 	cmd := exec.Command(goTool, args...)
 	cmd.Dir = repoDir
-	cmd.Env = append(os.Environ(), "VF_WITNESS="+wf)
+	// the native run's temporary directories live (and die) with this run's work directory
+	tmp := filepath.Join(r.work, "tmp")
+	_ = os.MkdirAll(tmp, 0755)
+	cmd.Env = append(os.Environ(), "VF_WITNESS="+wf, "TMPDIR="+tmp)
 	cmd.Env = append(cmd.Env, extraEnv...)
 	var out bytes.Buffer
 	cmd.Stdout = &out
